@@ -458,7 +458,7 @@ theorem callWithSerialize_build (f : Bool) (es : List Entry) (ser : Option Decod
         | some h =>
           match dec h.argT.id data with
           | none => .fwErr
-          | some v => call (build f es) route ctx (.val h.argT.id v) hasCb := by
+          | some v => call (build f es) route ctx (.val h.argT.builtId v) hasCb := by
   unfold callWithSerialize getArgType
   cases ser with
   | none => rfl
@@ -469,7 +469,7 @@ theorem callWithSerialize_build (f : Bool) (es : List Entry) (ser : Option Decod
     | some h =>
       obtain ⟨_, _, e, x, _, _, _, hv, _, hx⟩ := getHandler_build hh
       have hptr : h.argT.kind = .ptr := by rw [hx]; exact (valid_argT_ptr e.eid hv).1
-      simp only [Option.map_some, hptr, bne_self_eq_false, Bool.false_eq_true, if_false]
+      simp only [Option.map_some, hptr, Kind.hasElem, Bool.not_true, Bool.false_eq_true, if_false]
       cases dec h.argT.id data <;> rfl
 
 end Cell2v.ApiMap
